@@ -2705,7 +2705,7 @@ def reshape(array: Array, newshape: int | Sequence[int],
         raise ValueError(f"cannot reshape array of size {array.size}"
                 f" into {newshape}")
 
-    return Reshape(array, tuple(newshape_explicit), order,
+    return Reshape(array, tuple(newshape_explicit), order.upper(),
                    tags=_get_default_tags(),
                    non_equality_tags=_get_created_at_tag(),
                    axes=_get_default_axes(len(newshape_explicit)))
